@@ -141,6 +141,16 @@ class NumArr:
             return NumArr([[r.data[j] for r in self.data] for j in range(len(self.data[0]))])
         return self
 
+    def fill(self, v):
+        """a.fill(v): every element becomes v, in place (cast to the array's dtype)"""
+        v = int(v) if self.dtype == "int" and isinstance(v, float) else v
+        if self.ndim == 1:
+            self.data[:] = [v] * len(self.data)
+        else:
+            for r in self.data:
+                r.data[:] = [v] * len(r.data)
+        return None
+
     def swapaxes(self, i, j):
         n = self.ndim
         if not all(isinstance(a, int) and not isinstance(a, bool) and -n <= a < n for a in (i, j)):
@@ -171,7 +181,24 @@ class NumArr:
             raise IndexError("index %d is out of bounds for axis 0 with size %d" % (k, n))
         return k
 
+    def _no_ellipsis(self, key):
+        if not isinstance(key, tuple):
+            return slice(None) if key is Ellipsis and self.ndim == 1 else ((slice(None), slice(None)) if key is Ellipsis else key)
+        n_e = sum(1 for k in key if k is Ellipsis)
+        if n_e > 1:
+            raise IndexError("an index can only have a single ellipsis ('...')")
+        if n_e:
+            used = len(key) - 1
+            if used > self.ndim:
+                raise IndexError("too many indices for array")
+            i = [j for j, k in enumerate(key) if k is Ellipsis][0]
+            key = tuple(key[:i]) + (slice(None),) * (self.ndim - used) + tuple(key[i + 1:])
+        if len(key) == 1:
+            return key[0]           # a[(idx,)] is a[idx] (what np.nonzero hands back for a vector)
+        return key
+
     def __getitem__(self, key):
+        key = self._no_ellipsis(key)
         if isinstance(key, tuple):
             if len(key) == 2 and self.ndim == 2:
                 rows = self[key[0]]
@@ -191,6 +218,7 @@ class NumArr:
         return self.data[self._idx(key)]
 
     def __setitem__(self, key, value):
+        key = self._no_ellipsis(key)
         value = self._cast(value)
         if isinstance(key, int) and not isinstance(key, bool) and self.ndim == 2:
             row = list(value) if _is_seq(value) else [value] * len(self.data[0])
@@ -421,6 +449,35 @@ def _mean(a, axis=None):
     return tot / n
 
 
+def _raise_und(msg):
+    raise Undecided(msg)
+
+
+def _np_take(a, indices, axis=None, out=None, mode="raise"):
+    """np.take: along an axis it is a[:, idx] / a[idx, :]; without an axis the array is flattened first"""
+    if out is not None or mode != "raise":
+        raise Undecided("np.take with out= / mode=")
+    a = a if isinstance(a, NumArr) else NumArr(a)
+    idx = indices.tolist() if isinstance(indices, NumArr) else (list(indices) if _is_seq(indices) else indices)
+    if axis is None:
+        return a.ravel()[idx] if a.ndim > 1 else a[idx]
+    if not isinstance(axis, int) or isinstance(axis, bool) or not -a.ndim <= axis < a.ndim:
+        raise ValueError("axis %r is out of bounds for array of dimension %d" % (axis, a.ndim))
+    axis %= a.ndim
+    if a.ndim == 1 or axis == 0:
+        return a[idx]
+    return a[(slice(None), idx)]
+
+
+def _np_ndindex(*shape):
+    import itertools
+    if len(shape) == 1 and isinstance(shape[0], (tuple, list)):
+        shape = tuple(shape[0])
+    if not all(isinstance(n, int) and not isinstance(n, bool) and n >= 0 for n in shape):
+        raise Undecided("np.ndindex%r" % (shape,))
+    return [tuple(t) for t in itertools.product(*[range(n) for n in shape])]
+
+
 def _np_mean(a, axis=None, dtype=None, out=None, **k):
     """np.mean, with `out`: the result is written into that array (in place - whoever else holds it sees the mean) and returned"""
     if k or dtype is not None:
@@ -593,24 +650,43 @@ def num_summaries():
             return NumArr([f(data, x) for x in v])
         return f(data, v)
 
+    def _arrify(v):
+        return v if isinstance(v, NumArr) or not _is_seq(v) else NumArr(list(v))
+
     def where(cond, x=None, y=None):
-        c = list(cond)
+        cond = _arrify(cond)
+        if (x is None) != (y is None):
+            raise ValueError("either both or neither of x and y should be given")
         if x is None:
-            return (NumArr([i for i, b in enumerate(c) if b]),)
-        xs = list(x) if _is_seq(x) else [x] * len(c)
-        ys = list(y) if _is_seq(y) else [y] * len(c)
-        return NumArr([a if b else d for b, a, d in zip(c, xs, ys)])
+            if isinstance(cond, NumArr) and cond.ndim == 2:
+                hits = [(i, j) for i, r in enumerate(cond.data) for j, b in enumerate(r.data) if b]
+                return (NumArr([i for i, _ in hits]), NumArr([j for _, j in hits]))
+            return (NumArr([i for i, b in enumerate(list(cond)) if b]),)
+        return emap(lambda c, a, d: a if c else d, cond, _arrify(x), _arrify(y))       # element-wise, with numpy's broadcasting
+
+    def only1d(fn, name):
+        """a model written for vectors: anything with two axes is a gap of the model, not a property of the program"""
+        def g(*a, **k):
+            for v in a:
+                if (isinstance(v, NumArr) and v.ndim != 1) or (isinstance(v, (list, tuple)) and v and isinstance(v[0], (list, tuple, NumArr)) and name not in ("np.concatenate", "np.hstack")):
+                    raise Undecided("%s of an array with %s axes" % (name, v.ndim if isinstance(v, NumArr) else "several"))
+            return fn(*a, **k)
+        g.__name__ = name
+        return g
 
     def pair(fn):
         def g(a, b):
-            if _is_seq(a) or _is_seq(b):
-                a_ = NumArr(a) if _is_seq(a) else a
-                return (a_ if isinstance(a_, NumArr) else NumArr(b))._bin(b if isinstance(a_, NumArr) else a, fn) if isinstance(a_, NumArr) else NumArr(b)._bin(a, lambda y, x: fn(x, y))
-            return fn(a, b)
+            return emap(fn, _arrify(a), _arrify(b))
         return g
 
     def clip(a, lo, hi):
-        return NumArr([min(max(x, lo) if lo is not None else x, hi) if hi is not None else (max(x, lo) if lo is not None else x) for x in a])
+        def one(x, l_, h_):
+            x = max(x, l_) if l_ is not None else x
+            return min(x, h_) if h_ is not None else x
+        return emap(one, _arrify(a), _arrify(lo), _arrify(hi))
+
+    def elementwise(fn):
+        return lambda a: emap(fn, _arrify(a))
     return {
         "np.array": lambda x, *a, **k: (x if (k.get("copy") is False and isinstance(x, NumArr) and _dtype_name(k.get("dtype", a[0] if a else None)) in (None, x.dtype)) else arr(x, *a, **k)),
         "np.asarray": lambda x, *a, **k: (x if (isinstance(x, NumArr) and _dtype_name(k.get("dtype", a[0] if a else None)) in (None, x.dtype)) else arr(x, *a, **k)),
@@ -619,14 +695,18 @@ def num_summaries():
         "np.any": lambda a: any(bool(x) for x in a), "np.all": lambda a: all(bool(x) for x in a),
         "np.zeros": lambda shape=None, dtype=None, *a, **k: _alloc(shape, 0 if _dtype_name(dtype) == "int" else False if _dtype_name(dtype) == "bool" else 0.0, "int" if _dtype_name(dtype) == "int" else None),
         "np.histogram": histogram,
-        "np.arange": lambda *a: NumArr(list(range(*a))), "np.isin": lambda a, b: NumArr([x in list(b) for x in a]),
-        "np.diff": lambda a: NumArr([y - x for x, y in zip(list(a)[:-1], list(a)[1:])]),
-        "np.cumsum": lambda a: NumArr(a).cumsum(), "np.argmin": lambda a: NumArr(a).argmin(), "np.argmax": lambda a: NumArr(a).argmax(),
-        "np.flatnonzero": lambda a: NumArr([i for i, b in enumerate(a) if b]), "np.nonzero": lambda a: (NumArr([i for i, b in enumerate(a) if b]),),
-        "np.logical_and": lambda a, b: NumArr(a) & b, "np.logical_or": lambda a, b: NumArr(a) | b, "np.logical_not": lambda a: ~NumArr(a),
-        "np.digitize": lambda x, bins, right=False: NumArr([(bisect.bisect_left if right else bisect.bisect_right)(list(bins), v) for v in x]),
-        "np.unique": lambda a: NumArr(sorted(set(a))), "np.sort": lambda a: NumArr(sorted(a)),
-        "np.take": lambda a, idx, **k: NumArr(a)[idx], "np.concatenate": lambda seq, **k: NumArr([x for s in seq for x in (s if _is_seq(s) else [s])]),
+        "np.arange": lambda *a: NumArr(list(range(*a))), "np.isin": lambda a, b: emap(lambda x: x in list(_arrify(b).ravel() if isinstance(_arrify(b), NumArr) else [b]), _arrify(a)),
+        "np.diff": only1d(lambda a: NumArr([y - x for x, y in zip(list(a)[:-1], list(a)[1:])]), "np.diff"),
+        "np.cumsum": only1d(lambda a: NumArr(a).cumsum(), "np.cumsum"), "np.argmin": only1d(lambda a: NumArr(a).argmin(), "np.argmin"), "np.argmax": only1d(lambda a: NumArr(a).argmax(), "np.argmax"),
+        "np.flatnonzero": lambda a: NumArr([i for i, b in enumerate(_arrify(a).ravel() if isinstance(_arrify(a), NumArr) else [a]) if b]),
+        "np.nonzero": lambda a: where(a),
+        "np.count_nonzero": lambda a, axis=None: (sum(1 for b in (_arrify(a).ravel() if isinstance(_arrify(a), NumArr) else [a]) if b) if axis is None else _raise_und("np.count_nonzero along an axis")),
+        "np.logical_and": pair(lambda x, y: bool(x) and bool(y)), "np.logical_or": pair(lambda x, y: bool(x) or bool(y)), "np.logical_not": elementwise(lambda x: not x),
+        "np.digitize": only1d(lambda x, bins, right=False: NumArr([(bisect.bisect_left if right else bisect.bisect_right)(list(bins), v) for v in x]), "np.digitize"),
+        "np.unique": only1d(lambda a: NumArr(sorted(set(a))), "np.unique"), "np.sort": only1d(lambda a: NumArr(sorted(a)), "np.sort"),
+        "np.take": _np_take, "np.ndindex": _np_ndindex,
+        "np.isposinf": elementwise(lambda x: x == float("inf")), "np.isneginf": elementwise(lambda x: x == float("-inf")),
+        "np.concatenate": only1d(lambda seq, axis=0: NumArr([x for s in seq for x in (s if _is_seq(s) else [s])]) if axis in (0, None) else _raise_und("np.concatenate along axis %r" % (axis,)), "np.concatenate"),
         "np.append": lambda a, b, axis=None: NumArr((list(NumArr(a).ravel()) if _is_seq(a) else [a]) + (list(NumArr(b).ravel()) if _is_seq(b) else [b])),
         "np.insert": _insert,
         "np.hstack": lambda seq: NumArr([x for s_ in seq for x in (s_ if _is_seq(s_) else [s_])]),
@@ -659,9 +739,8 @@ def num_summaries():
         "np.sum": lambda a, axis=None: (a if isinstance(a, NumArr) else NumArr(a)).sum(axis), "np.abs": lambda a: abs(a), "np.absolute": lambda a: abs(a),
         "np.min": lambda a: NumArr(a).min() if _is_seq(a) else a, "np.max": lambda a: NumArr(a).max() if _is_seq(a) else a,
         "np.amin": lambda a: NumArr(a).min(), "np.amax": lambda a: NumArr(a).max(),
-        "np.float64": float, "np.int64": int, "np.isinf": lambda a: NumArr([x in (float("inf"), float("-inf")) for x in a]) if _is_seq(a) else a in (float("inf"), float("-inf")),
-        "np.isfinite": lambda a: NumArr([x not in (float("inf"), float("-inf")) and x == x for x in a]) if _is_seq(a) else (a not in (float("inf"), float("-inf")) and a == a),
-        "np.count_nonzero": lambda a: sum(1 for x in a if x),
+        "np.float64": float, "np.int64": int, "np.isinf": elementwise(lambda x: x in (float("inf"), float("-inf"))),
+        "np.isfinite": elementwise(lambda x: x not in (float("inf"), float("-inf")) and x == x),
         "np.add": lambda a, b: (a if isinstance(a, NumArr) else NumArr(a)) + b,
         "np.multiply": lambda a, b: (a if isinstance(a, NumArr) else NumArr(a)) * b,
         "max": lambda *a: max(a) if len(a) > 1 else max(a[0]), "min": lambda *a: min(a) if len(a) > 1 else min(a[0]),
